@@ -44,12 +44,14 @@ type worldT struct {
 	initial      uint64
 	futureStart  bool
 	stopped      bool
+	midstop      bool // the stop request arrived in the middle of an activity (at a scheduling point)
 	queues       *world.EventQueues
 	ioerr        string // non-empty: a datastore write was made to fail (transient I/O error)
 }
 
 func startWorld(c *explore.Ctx, futureGenesis bool, daBlock time.Duration) (*worldT, *world.Fail) {
 	w := &worldT{initial: 1, futureStart: futureGenesis, errCh: make(chan error, 16)}
+	c.Aux = w
 	w.sched = world.NewSched(func(n int, names []string) int {
 		if w.stopped {
 			return 0
@@ -135,6 +137,23 @@ func startWorld(c *explore.Ctx, futureGenesis bool, daBlock time.Duration) (*wor
 	w.sched.Go("full:p2p-data", func() { f.DataStoreRetrieveLoop(ctx) })
 	w.sched.Go("sync", func() { f.SyncLoop(ctx, w.errCh) })
 	w.sched.Go("full:includer", func() { f.DAIncluderLoop(ctx, w.errCh) })
+	// a stop request may also arrive at any scheduling point (while activities are in the middle of an environment
+	// call sequence); explored on otherwise default executions only (no second deviation)
+	w.sched.Interrupt = func() bool {
+		if w.stopped {
+			return false
+		}
+		for _, p := range c.Choices() {
+			if p.Class != "config" && p.Choice != 0 {
+				return false
+			}
+		}
+		if c.Choose("midstop", 2) == 1 {
+			w.stopped, w.midstop = true, true
+			return true
+		}
+		return false
+	}
 	w.sched.Drain()
 	return w, nil
 }
@@ -196,6 +215,7 @@ func (w *worldT) invariants() *world.Fail {
 // stop cancels both nodes and checks that every loop returns within one block interval of virtual time.
 func (w *worldT) stop() *world.Fail {
 	w.stopped = true
+	w.sched.Interrupted = false
 	w.cancel()
 	w.sched.Drain()
 	for i := 0; i < 10 && len(w.sched.Alive()) > 0; i++ {
@@ -259,6 +279,10 @@ func bubble(c *explore.Ctx, horizonSteps int) (out outcome) {
 	}
 	stoppedAt := -1
 	for step := 0; step <= horizonSteps; step++ {
+		if w.midstop {
+			stoppedAt = step
+			break
+		}
 		if c.Choose("stop", 2) == 1 {
 			stoppedAt = step
 			break
@@ -277,12 +301,23 @@ func bubble(c *explore.Ctx, horizonSteps int) (out outcome) {
 				break
 			}
 		}
-		if step%5 == 4 {
+		if step%5 == 4 && !w.midstop {
 			if f := w.invariants(); f != nil {
 				out.fail, out.tags = f, tags
 				return
 			}
 		}
+	}
+	if w.midstop {
+		// the stop interrupted activities half-way: only the stop behaviour is judged
+		tags = append(tags, "stop-mid-activity")
+		out.events = append(out.events, fmt.Sprintf("stop request at scheduling step %d (last scheduled: %s)", w.sched.Steps, w.sched.Last()))
+		if f := w.stop(); f != nil {
+			out.fail, out.tags = f, tags
+			return
+		}
+		out.sig = fmt.Sprintf("future=%v da=%s midstop@%d", future, daBlock, w.sched.Steps)
+		return
 	}
 	if f := w.invariants(); f != nil {
 		out.fail, out.tags = f, tags
@@ -395,16 +430,52 @@ func TestCheck(t *testing.T) {
 		return
 	}
 	horizon := vf.Pick(r, 25, 40) // 100 ms steps
-	budgets := vf.Pick(r, map[string]int{"sched": 1, "stop": 1, "ioerr": 1, "da": 1}, map[string]int{"sched": 2, "stop": 1, "ioerr": 1, "da": 1})
+	budgets := vf.Pick(r, map[string]int{"sched": 1, "stop": 1, "midstop": 1, "ioerr": 1, "da": 1}, map[string]int{"sched": 2, "stop": 1, "midstop": 1, "ioerr": 1, "da": 1})
 	total := vf.Pick(r, 2, 3)
 	r.Assume = []string{
 		"virtual time; scheduling granularity = environment calls (datastore, DA, executor, sequencer, P2P stores) plus gated sends into the sync loop's input channels; plain memory accesses between two gates are atomic, so DATA RACES ARE NOT DECIDED by this enumeration",
 		"the worker fan-out/join of FullNode.Run (node/full.go) is not executed here (libp2p goroutines cannot run in a bubble); the ten loops are started by the harness exactly as Run starts them and joined by the scheduler",
-		"a stop is explored at every 100 ms boundary; 'promptly' = within one block interval of virtual time",
+		"a stop is explored at every 100 ms boundary (combined with the other deviations) and, on otherwise default executions, at every scheduling point in the middle of the activities (then only the stop behaviour is judged); 'promptly' = within one block interval of virtual time",
 		"locks of package block are visible to the scheduler (overlay copy with a lock shim): a thread waiting for a held lock is parked, a thread that can never get its lock is reported as a deadlock",
 		"one DA submission may be answered 'timed out' or with a generic error (the retry back-off is then pending when a stop arrives)",
 		"one transient datastore write error may be injected anywhere; afterwards only the stop behaviour is judged (a loop reporting a fatal error is then legitimate and triggers the stop, as FullNode.Run does)",
+		"livelock: an execution that has not ended after 120 s of real time (executions take milliseconds) is examined: if the scheduler makes no more steps and one goroutine is running/runnable in the same function in 10 consecutive stack samples it is reported as a busy loop, otherwise as a machinery error",
 		"after the stop request scheduling is canonical (Go's random choice between ctx.Done() and another ready case is not owned; both outcomes must satisfy the oracle)",
+	}
+	// livelock: an activity that runs for ever without reaching an environment call, a lock, a channel or a timer
+	// never lets the bubble go quiescent. Executions take milliseconds; one that has not ended after stuckAfter of
+	// real time while the process kept burning CPU is a busy loop (without CPU use it is a machinery problem).
+	const stuckAfter = 120 * time.Second
+	onStuck := func(c *explore.Ctx, waited, cpu time.Duration) {
+		who, stopped := "?", false
+		steps := func() int { return 0 }
+		if w, ok := c.Aux.(*worldT); ok && w != nil {
+			who, stopped = w.sched.Last(), w.stopped
+			steps = func() int { return w.sched.StepCount() }
+		}
+		s0 := steps()
+		busy, where := explore.BusyGoroutine(10, 500*time.Millisecond)
+		if !busy || steps() != s0 {
+			r.EngineError(fmt.Sprintf("an execution did not end within %s (CPU used %s) but no goroutine is spinning (busy=%v, scheduler steps %d -> %d): starved machine or harness deadlock (last scheduled: %s)\n choices: %s", waited.Round(time.Second), cpu.Round(time.Second), busy, s0, steps(), who, short(c.String())))
+		} else {
+			who += " [" + where + "]"
+			clause, what := "busy-loop", "no stop was requested"
+			if stopped {
+				clause, what = "stops-promptly", "a stop had been requested"
+			}
+			r.Report(vf.Violation{Clause: clause, Tags: []string{"busy-loop"}, Msg: fmt.Sprintf("activity %q runs for ever without reaching an environment call, lock, channel operation or timer (%s): the execution did not end within %s of real time and burnt %s of CPU (executions normally take milliseconds)\n choices: %s", who, what, waited.Round(time.Second), cpu.Round(time.Second), short(c.String())), Cost: c.Cost(), History: map[string]any{"Choices": c.Choices()}})
+		}
+		r.Abort(vf.Coverage{Evaluations: 1, DistinctNontrivial: 1, Rule: "aborted: a stuck execution cannot be ended from inside the process", Caps: []string{"aborted after a stuck execution"}})
+	}
+	onStuckWhich := func(which string, waited, cpu time.Duration) {
+		busy, where := explore.BusyGoroutine(10, 500*time.Millisecond)
+		if !busy {
+			r.EngineError(fmt.Sprintf("full-channel scenario %s did not end within %s (CPU used %s) but no goroutine is spinning", which, waited.Round(time.Second), cpu.Round(time.Second)))
+		} else {
+			which += " [" + where + "]"
+			r.Report(vf.Violation{Clause: "stops-promptly", Tags: []string{"busy-loop", "event-channel-full"}, Msg: fmt.Sprintf("with the sync loop's input channel full and a stop requested, the %s loop runs for ever without blocking (busy loop): the scenario did not end within %s of real time and burnt %s of CPU", which, waited.Round(time.Second), cpu.Round(time.Second)), Cost: 1, History: map[string]any{"Which": which}})
+		}
+		r.Abort(vf.Coverage{Evaluations: 1, DistinctNontrivial: 1, Rule: "aborted: a stuck execution cannot be ended from inside the process", Caps: []string{"aborted after a stuck execution"}})
 	}
 	if r.ReplayPath() != "" {
 		var h struct {
@@ -419,6 +490,7 @@ func TestCheck(t *testing.T) {
 			}
 		} else {
 			explore.ReplayOne(h.Choices, func(c *explore.Ctx) {
+				defer close(explore.Watch(c, stuckAfter, onStuck))
 				if o := body(t, c, horizon); o.fail != nil {
 					fmt.Println(o.fail.Msg, o.events)
 					r.Report(vf.Violation{Clause: o.fail.Clause, Tags: o.tags, Msg: o.fail.Msg, History: h})
@@ -428,7 +500,7 @@ func TestCheck(t *testing.T) {
 		r.Finish(vf.Coverage{Evaluations: 1, DistinctNontrivial: 1})
 		return
 	}
-	st := explore.Explore(explore.Config{Budgets: budgets, Total: total, Free: []string{"config"}, Deadline: vf.Pick(r, 90*time.Second, 25*time.Minute)}, func(c *explore.Ctx) {
+	st := explore.Explore(explore.Config{Budgets: budgets, Total: total, Free: []string{"config"}, Deadline: vf.Pick(r, 90*time.Second, 25*time.Minute), StuckAfter: stuckAfter, OnStuck: onStuck}, func(c *explore.Ctx) {
 		o := body(t, c, horizon)
 		if o.fail != nil && o.fail.Clause == "engine" {
 			r.EngineError(o.fail.Msg)
@@ -451,7 +523,11 @@ func TestCheck(t *testing.T) {
 	if r.FirstShard() {
 		for _, which := range []string{"retrieve-header", "retrieve-data", "p2p-header", "p2p-data"} {
 			extra++
-			if o := fullChannel(t, which); o.fail != nil {
+			wc := &explore.Ctx{}
+			fin := explore.Watch(wc, stuckAfter, func(c *explore.Ctx, waited, cpu time.Duration) { onStuckWhich(which, waited, cpu) })
+			o := fullChannel(t, which)
+			close(fin)
+			if o.fail != nil {
 				r.Report(vf.Violation{Clause: o.fail.Clause, Tags: o.tags, Msg: o.fail.Msg, Cost: 1, History: map[string]any{"Which": which}})
 			} else {
 				r.Outcome("full-channel:" + which + ":returns")
